@@ -284,14 +284,22 @@ pub fn run(tier: &str, seed: u64) -> i32 {
         }
     }
     let _ = std::fs::remove_dir_all(&dir);
+    // pairwise legs on the wider profiles two backends share
+    match crate::c07p::run_legs(tier, seed, &kf) {
+        Ok(p) => partial.merge(p),
+        Err(e) => {
+            eprintln!("infrastructure: pair legs: {e}");
+            return 2;
+        }
+    }
     let v = Verdict {
         property: "C07".into(),
         tier: tier.into(),
         seed,
         partial,
-        rule: "descriptions from the intersection of the Rust, Python and C++ profiles (LE/BE twins), compiled by all three generators. Pure differential: the reference model only produces inputs (valid encodings and their mutants) and event tags. Values (compiled into the C++ driver, sent as JSON to the Rust harness in serve mode and to the CPython driver): the three serializers emit identical octets or all refuse. Byte strings: the three parsers agree on acceptance of the octets as the given type (Python: parse_all on the root returns that type or a descendant) and, field by field, on the values (Rust's serde JSON is the key set). Non-trivial: values serialized identically by all, inputs accepted by all with equal values; distinct by (type, input).".into(),
-        assumptions: vec!["Java is not part of the comparison: its generator fails on most shapes outside a narrow profile (DESIGN section 7); it is compared with the reference in C19".into(), "inputs on which the generated Rust panics are C01's business and are not compared".into()],
-        extra: json!({"backends_compared": ["rust", "python", "cxx"], "dropped_descriptions": dropped}),
+        rule: "descriptions from the intersection of the Rust, Python and C++ profiles (LE/BE twins), compiled by all three generators. Pure differential: the reference model only produces inputs (valid encodings and their mutants) and event tags. Values (compiled into the C++ driver, sent as JSON to the Rust harness in serve mode and to the CPython driver): the three serializers emit identical octets or all refuse. Byte strings: the three parsers agree on acceptance of the octets as the given type (Python: parse_all on the root returns that type or a descendant) and, field by field, on the values (Rust's serde JSON is the key set). Pair legs: Rust x Python on the python profile (adds optional fields, size modifiers, struct inheritance ... that C++ lacks) and Rust x Java on the java-rt profile, values generated at run time and serialized by both, octet strings parsed by both (Java: a more derived or Unknown<X> class counts as accepting; a throw caused by a matching but malformed child is not compared). Non-trivial: values serialized identically by all, inputs accepted by all with equal values; distinct by (pair, type, input).".into(),
+        assumptions: vec!["Java takes part pairwise with Rust on the java-rt profile only (its generator or javac refuses many shapes outside it, DESIGN section 7); descriptions refused by a generator or compiler are dropped (C10's business)".into(), "inputs on which the generated Rust panics are C01's business and are not compared".into()],
+        extra: json!({"backends_compared": ["rust", "python", "cxx", "java (pairwise with rust)"], "dropped_descriptions": dropped}),
         wall_s: t0.elapsed().as_secs_f64(),
         known_reproduced: vec![],
     };
